@@ -164,6 +164,15 @@ func runCheck(o *checkOpts) *checkResult {
 		opt.confirm = true
 	}
 	e.u.freezePrelude()
+	// obligations listed as known findings are expected to stay undischarged: one
+	// short attempt is enough to notice that one has become provable
+	for _, k := range loadKnownFindings(filepath.Join(o.root, "KNOWN_FINDINGS.txt")) {
+		for _, ob := range res.obls {
+			if k.matches(o.prop, ob.Name) {
+				ob.Short = true
+			}
+		}
+	}
 	dischargeAll(res.obls, opt, 8)
 	for _, ob := range res.obls {
 		res.solverTime += ob.Time
